@@ -135,6 +135,7 @@ Proof.
   - destruct (find_serial_rev s0 (rev (versions s))) as [v|] eqn:E; [|discriminate].
     intros X; inversion X; subst. apply (register_inv s v H).
     apply find_serial_rev_in in E. apply in_rev. tauto.
+  - discriminate.
   - (* Close *)
     destruct (h <? next_h s); [|discriminate].
     destruct (has_reader h (readers s)); [|discriminate].
@@ -196,6 +197,7 @@ Proof.
   - destruct (inv_last s H) as [v ->]. discriminate.
   - destruct (find_id_rev _ _); discriminate.
   - destruct (find_serial_rev _ _); discriminate.
+  - discriminate.
   - destruct (h <? next_h s); [|discriminate].
     destruct (has_reader h (readers s)); [|discriminate].
     assert (Hsub : forall r0, In r0 (remove_reader h (readers s)) -> In r0 (readers s))
@@ -247,6 +249,7 @@ Proof.
   - destruct (last_opt _); [|discriminate]. intros X; inversion X. exists []. cbn. rewrite app_nil_r. reflexivity.
   - destruct (find_id_rev _ _); [|discriminate]. intros X; inversion X. exists []. cbn. rewrite app_nil_r. reflexivity.
   - destruct (find_serial_rev _ _); [|discriminate]. intros X; inversion X. exists []. cbn. rewrite app_nil_r. reflexivity.
+  - discriminate.
   - destruct (h <? next_h s); [|discriminate]. destruct (has_reader _ _); [|discriminate].
     destruct (prune _ _ _); try discriminate. cbn. intros X; inversion X. exists []. cbn. rewrite app_nil_r. reflexivity.
   - destruct (wtxn s); [discriminate|]. intros X; inversion X. exists []. cbn. rewrite app_nil_r. reflexivity.
@@ -352,6 +355,7 @@ Proof.
   - destruct (last_opt _); [|discriminate]. inversion E; subst. apply Hreg.
   - destruct (find_id_rev _ _); [|discriminate]. inversion E; subst. apply Hreg.
   - destruct (find_serial_rev _ _); [|discriminate]. inversion E; subst. apply Hreg.
+  - discriminate.
   - destruct (h0 <? next_h s); [|discriminate]. destruct (has_reader _ _); [|discriminate].
     assert (Hsub : forall r0, In r0 (remove_reader h0 (readers s)) -> In r0 (readers s))
       by (intros r0; apply in_remove_reader).
@@ -429,6 +433,7 @@ Proof.
     intros X. inversion X; subst. apply find_serial_rev_in in E. destruct E as [Hv Es].
     apply in_rev in Hv.
     split; [apply (read_registered s v H Hv)|]. exists v. repeat split; assumption.
+  - discriminate.
   - destruct (h0 <? next_h s); [|discriminate]. destruct (has_reader _ _); [|discriminate].
     destruct (prune _ _ _); cbn; try discriminate.
   - destruct (wtxn s); discriminate.
@@ -466,6 +471,7 @@ Proof.
   - destruct (last_opt _); [|discriminate]. intros X; inversion X; subst. left. reflexivity.
   - destruct (find_id_rev _ _); [|discriminate]. intros X; inversion X; subst. left. reflexivity.
   - destruct (find_serial_rev _ _); [|discriminate]. intros X; inversion X; subst. left. reflexivity.
+  - discriminate.
   - destruct (h <? next_h s); [|discriminate]. destruct (has_reader _ _); [|discriminate].
     assert (Hsub : forall r0, In r0 (remove_reader h (readers s)) -> In r0 (readers s))
       by (intros r0; apply in_remove_reader).
